@@ -28,7 +28,7 @@ FLOORS = {
                  'mutants_judged': 40000, 'smallscope_compared': 20000, 'props_compared': 20000},
 }
 BUDGET = {
-    'quick': {'typed_exprs': 6000, 'props': 3500, 'specs': 400, 'untyped': 3000, 'fusion': 1500},
+    'quick': {'typed_exprs': 10000, 'props': 6000, 'specs': 600, 'untyped': 5000, 'fusion': 2500},
     'thorough': {'typed_exprs': 120000, 'props': 60000, 'specs': 8000, 'untyped': 50000, 'fusion': 30000},
 }
 TIMEOUT = {'quick': 600, 'thorough': 5400}
